@@ -459,3 +459,112 @@ func (k Keeper) burnContract("""),
 benign("C08","liveness-as-difference",[
  ("x/rns/keeper/msg_server_init.go","if bh <= whois.Expires {","if whois.Expires-bh >= 0 {"),
 ])
+
+benign("C14","tally-in-helper",[
+ ("x/storage/keeper/msg_server_attest.go","""	done := false
+
+	var count int64
+
+	attestations := form.Attestations
+	for _, attestation := range attestations {
+		if attestation.Provider == creator {
+			attestation.Complete = true
+			done = true
+		}
+
+		if attestation.Complete {
+			count++
+		}
+	}
+""","""	attestations := form.Attestations
+	count, done := signAndTally(attestations, creator)
+"""),
+ ("x/storage/keeper/msg_server_attest.go","func (k Keeper) Attest(","""// signAndTally marks the signer's entry and returns the number of signed entries (the new one included)
+func signAndTally(attestations []*types.Attestation, signer string) (int64, bool) {
+	done := false
+	var count int64
+	for _, attestation := range attestations {
+		if attestation.Provider == signer {
+			attestation.Complete = true
+			done = true
+		}
+
+		if attestation.Complete {
+			count++
+		}
+	}
+	return count, done
+}
+
+func (k Keeper) Attest("""),
+])
+benign("C12","reward-guard-as-else",[
+ ("x/storage/keeper/rewards.go","""	coins := k.pullTokensFromGauges(ctx)
+	if totalSize <= 0 { // no stored bytes to weigh rewards against, and nothing to divide by
+		return
+	}
+	networkValue := sdk.NewDec(totalSize)
+""","""	coins := k.pullTokensFromGauges(ctx)
+	if totalSize < 1 { // no stored bytes to weigh rewards against, and nothing to divide by
+		ctx.Logger().Debug("nothing stored")
+		return
+	}
+	networkValue := sdk.NewDec(totalSize)
+"""),
+])
+from_patch("C12","seed2-guard-before-gauge-pull","seeded/C12-zero-bytes-guard-before-gauge-pull/patch.diff","C12/R5","release-every-reward-block","seed round 2")
+from_patch("C13","seed2-capped-mint-records-uncapped-emission","seeded/C13-capped-mint-records-uncapped-emission/patch.diff","C13/R1","recorded=minted","seed round 2")
+from_patch("C14","seed2-repeated-signature-counted-twice","seeded/C14-repeated-signature-counted-twice/patch.diff","C14/R1","quorum-operands-direct","seed round 2")
+from_patch("C02","seed2-challenge-one-past-last-chunk","seeded/C02-challenge-one-past-last-chunk/patch.diff","C02/R2","draw-bounded","seed round 2")
+from_patch("C06","seed2-shuffle-from-global-generator","seeded/C06-shuffle-from-global-generator/patch.diff","C06/R1","global-rand","seed round 2")
+from_patch("C11","seed2-makeprimary-writes-record-owners-slot","seeded/C11-makeprimary-writes-record-owners-slot/patch.diff","C11/R3","rns.MsgMakePrimary:own-key","seed round 2")
+from_patch("C15","seed2-collateral-transfer-error-shadowed","seeded/C15-collateral-transfer-error-shadowed/patch.diff","C15/R4","error-propagates","seed round 2")
+from_patch("C16","seed2-space-stripping-after-lookup","seeded/C16-space-stripping-after-lookup/patch.diff","C16/R5","loaded-key=written-key","seed round 2")
+from_patch("C11","seed2-space-stripping-after-lookup","seeded/C16-space-stripping-after-lookup/patch.diff","C11/R7","loaded-key=written-key","seed round 2 (written against C16)")
+from_patch("C17","seed2-sweep-decodes-into-shared-file","seeded/C17-sweep-decodes-into-shared-file/patch.diff","C17/R4","decode-target-reused","seed round 2")
+from_patch("C18","seed2-blocksenders-break-on-already-blocked","seeded/C18-blocksenders-break-on-already-blocked/patch.diff","C18/R7","loop-not-left-early","seed round 2")
+from_patch("C19","seed2-export-through-default-pagination","seeded/C19-export-through-default-pagination/patch.diff","C19/R5","export-paginated","seed round 2")
+from_patch("C20","seed2-client-splitter-cleans-path","seeded/C20-client-splitter-cleans-path/patch.diff","C20/R3","splitter","seed round 2")
+
+m("C20","splitter-off-by-one","x/filetree/types/test_helpers.go",
+  'parentString := strings.Join(chunks[0:len(chunks)-1], "/")','parentString := strings.Join(chunks[0:len(chunks)-2], "/")',"C20/R3","splitter:x/filetree/types.MerkleHelper")
+m("C20","cli-splitter-trims-space","x/filetree/client/cli/utils.go",
+  'trimPath := strings.TrimSuffix(argHashpath, "/")','trimPath := strings.TrimSuffix(strings.TrimSpace(argHashpath), "/")',"C20/R3","splitter:x/filetree/client/cli.merkleHelper")
+benign("C20","cli-splitter-delegates",[
+ ("x/filetree/client/cli/utils.go","""	// Cut out the / at the end for compatibility with types/merkle-paths.go
+	trimPath := strings.TrimSuffix(argHashpath, "/")
+	chunks := strings.Split(trimPath, "/")
+
+	parentString := strings.Join(chunks[0:len(chunks)-1], "/")
+	childString := (chunks[len(chunks)-1])
+	parentHash := filetypes.MerklePath(parentString)
+
+	h := sha256.New()
+	h.Write([]byte(childString))
+	childHash := fmt.Sprintf("%x", h.Sum(nil))
+
+	return parentHash, childHash""","""	_ = strings.TrimSuffix
+	_ = sha256.New
+	_ = fmt.Sprintf
+	return filetypes.MerkleHelper(argHashpath)"""),
+])
+benign("C20","splitter-child-via-hashthenhex",[
+ ("x/filetree/types/test_helpers.go","""	h := sha256.New()
+	h.Write([]byte(childString))
+	childHash := fmt.Sprintf("%x", h.Sum(nil))
+
+	return parentHash, childHash""","""	return parentHash, HashThenHex(childString)"""),
+])
+m("C19","export-loop-stops-early","x/rns/keeper/bids.go",
+  'list = append(list, val)\n\t}\n\n\treturn\n}','list = append(list, val)\n\t\tif len(list) >= 1000 {\n\t\t\tbreak\n\t\t}\n\t}\n\n\treturn\n}',"C19/R5","rns:export-loop-exits-early:GetAllBids")
+benign("C18","blocksenders-skip-known-with-continue",[
+ ("x/notifications/keeper/msg_server_block_senders.go","""		b := types.Block{""","""		if k.IsBlocked(ctx, msg.Creator, address.String()) {
+			continue
+		}
+
+		b := types.Block{"""),
+])
+m("C18","blocksenders-return-on-known","x/notifications/keeper/msg_server_block_senders.go",
+  '		b := types.Block{','		if k.IsBlocked(ctx, msg.Creator, address.String()) {\n\t\t\treturn &types.MsgBlockSendersResponse{}, nil\n\t\t}\n\n\t\tb := types.Block{',"C18/R7","loop-not-left-early")
+m("C12","reward-skipped-when-no-provers","x/storage/keeper/rewards.go",
+  '	k.rewardAllProviders(ctx, totalSize, sizeTracker)\n}','	if len(*sizeTracker) == 0 {\n\t\treturn\n\t}\n\tk.rewardAllProviders(ctx, totalSize, sizeTracker)\n}',"C12/R5","release-every-reward-block:ManageRewards->rewardAllProviders")
